@@ -218,6 +218,13 @@ def attr_selectors(tier):
     out.append((S.cx(S.cp(None, ('attr', None, 'class', '~=', 'd', None))),))
     out.append((S.cx(S.cp(None, ('attr', None, 'class', '=', 'c d', None))),))
     out.append((S.cx(S.cp(None, ('attr', None, 'id', '=', 'i', None))),))
+    # names spelled in another case: HTML folds them, XML and XHTML do not
+    for nm in ('T', 'ID', 'Class'):
+        out.append((S.cx(S.cp(None, ('attr', None, nm, None, None, None))),))
+    out.append((S.cx(S.cp(None, ('attr', None, 'T', '=', 'v', None))),))
+    out.append((S.cx(S.cp(None, ('attr', None, 'T', '~=', 'v', 'i'))),))
+    out.append((S.cx(S.cp(S.T('A'), ('attr', None, 't', None, None, None))),))
+    out.append((S.cx(S.cp(S.T('B'))),))
     _CACHE[key] = out
     return out
 
@@ -225,7 +232,7 @@ def attr_selectors(tier):
 LAYERS = {
     'S': (structure_trees, structure_selectors, ('api-html', 'api-xml')),
     'F': (functional_trees, functional_selectors, ('api-html', 'api-xml')),
-    'A': (attr_trees, attr_selectors, ('api-html', 'api-xml')),
+    'A': (attr_trees, attr_selectors, ('api-html', 'api-xml', 'api-xhtml')),
     'PS': (lambda tier: [t for t in structure_trees('quick') if '@' not in t[0]][::1 if tier != 'quick' else 2],
            lambda tier: structure_selectors('quick')[::7 if tier == 'quick' else 2],
            ('html.parser', 'lxml', 'html5lib', 'xml')),
@@ -324,7 +331,7 @@ def record_failure(res, sv, layer, forest, kind, lst, tindex, r):
     rr = fails(f2, l2) or r
     sig = {'kind': rr['status'], 'direction': rr.get('direction', rr.get('exc', '')),
            'atoms': '+'.join(sorted(_sel.atoms_of(l2))), 'tree': '+'.join(sorted(tree_features(f2))),
-           'doc': 'xml' if kind in ('api-xml', 'xml') else 'html'}
+           'doc': 'xml' if kind in ('api-xml', 'xml') else ('xhtml' if kind == 'api-xhtml' else 'html')}
     res.fail({'layer': layer, 'forest': f2, 'kind': kind, 'selector': l2, 'target': tindex, 'text': S.render(l2)},
              sig, rr.get('detail', ''))
 
@@ -347,7 +354,7 @@ def run_shard(desc):
         failed_here = 0
         for di, (name, forest, kind, soup, ctx, els) in enumerate(docs):
             targets = [(-1, soup)]
-            if per_element_targets and len(els) <= 3:
+            if per_element_targets and len(els) <= (2 if tier == 'quick' else 3):
                 targets += [(k, e) for k, e in enumerate(els) if e.contents]
             for tindex, target in targets:
                 r = _sel.run_case(sv, target, lst, ctx=ctx if tindex < 0 else None, text=text)
